@@ -110,22 +110,43 @@ class C05(Prop):
         modes = G.MODES if rnd.random() < 0.6 else [rnd.choice(G.MODES)]
         for m in modes:
             lines.append('offcnt 0 %s' % m)
+        rc = self._routes
         for m in modes:
-            lines.append('tagged 0 %s' % m)
+            if flavour != 'noref' and rnd.random() < 0.5:
+                lines.append(G.routed(rnd, 'tagged', [0], m, None, rc))      # the same request through another entry point
+            else:
+                lines.append('tagged 0 %s' % m)
+        if flavour != 'noref' and rnd.random() < 0.12:
+            lines += G.all_routes(rnd, 'tagged', [0], rc)                     # ... through EVERY entry point
         if rnd.random() < 0.3:
             lines.append('taggeda 0 %s' % rnd.choice(G.MODES))
         if rnd.random() < 0.15:
             lines.append('tagged %d %s' % (rnd.choice([1, 2, 7]), rnd.choice(G.MODES)))      # reference index out of range
         for j in range(len(feats)):
             for m in (modes if rnd.random() < 0.5 else [rnd.choice(G.MODES)]):
-                lines.append('feature %d %s' % (j, m))
+                if rnd.random() < 0.5:
+                    lines.append(G.routed(rnd, 'feature', [j], m, None, rc))
+                else:
+                    lines.append('feature %d %s' % (j, m))
+            if rnd.random() < 0.12:
+                lines += G.all_routes(rnd, 'feature', [j], rc)
         if rnd.random() < 0.2:
             lines.append('feature %d %s' % (len(feats) + rnd.choice([0, 1, 3]), rnd.choice(G.MODES)))   # feature index out of range
         tag = '%s:%d%s' % (flavour, rank, ''.join(kinds))
         return Case(lines, tag)
 
+    _routes = {}
+
+    def extra_checks(self, ctx):
+        # which public entry points exist and how many query lines of this run went through each
+        ctx['ev']['entry_points'] = {k: G.ROUTES[k] for k in ('tagged', 'feature')}
+        ctx['ev']['entry_points_plain'] = {k: G.PLAIN_ROUTES[k] for k in ('offcnt', 'taggeda')}
+        ctx['ev']['query_lines_per_route'] = dict(sorted(self._routes.items()))
+        return []
+
     def generate(self, seed, tier, scale=1):
         rnd = random.Random(seed)
+        self._routes = {}
         combos = G.all_kind_combos()          # 4 + 16 + 64
         quick = tier == 'quick'
         per = (18 if quick else 760) * scale
